@@ -21,7 +21,7 @@ PROPS = ["C01", "C02", "C03", "C05", "C06", "C07", "C08", "C09", "C10", "C11", "
 BUDGET = {
     "C01": (6000, 120000), "C02": (8000, 160000), "C03": (5000, 100000),
     "C05": (10000, 200000), "C06": (8000, 160000), "C07": (16000, 320000),
-    "C08": (5000, 100000), "C09": (3000, 60000), "C10": (6000, 120000),
+    "C08": (3500, 70000), "C09": (3000, 60000), "C10": (6000, 120000),
     "C11": (2000, 40000), "C16": (1600, 32000),
 }
 WALL_CAP = {"quick": 150.0, "thorough": 1500.0}
